@@ -133,6 +133,17 @@ CLAIMS["C09"] = dict(
     technique="Coq proof (Vectorize.v shape lemmas + refutations) + reflective shape check over regenerated rule ASTs + differential U8 on the real rewriter",
     design="6/C09")
 
+CLAIMS["C14"] = dict(
+    text="PARTIAL (as DESIGN.md says): theorem over an abstract process state — if no operation writes a persistent location (module "
+         "namespaces, registry, the caller's data / params / functions) and results depend only on the operation and persistent locations, "
+         "then after ANY finite history every call returns what it returns in a fresh process and the persistent locations are unchanged; "
+         "the two write-set violations of the code before repair are refuted as instances. That the real operations have these write "
+         "sets is observed, not proved: U10 runs random histories (set-up, simulate with DataFrame / dict data needing conversion, reforms, "
+         "make_vectorizable) in one interpreter, re-runs every call in a fresh interpreter (digests must be identical) and snapshots caller "
+         "objects and every module binding before/after each call. Aliasing and caches inside numpy/pandas cannot be exhibited by the model.",
+    technique="Coq proof (History.history_independent, abstract non-interference) + history exploration against fresh processes (U10)",
+    design="6/C14")
+
 CLAIMS["C20"] = dict(
     text="Theorems on the model of the input checks and of the coercion: accepted data have unique p_ids, valid non-self pointers, "
          "group-constant group-level inputs and no duplicate column names (each fault class => rejection); a successful conversion never "
